@@ -892,13 +892,41 @@ class CCodeGenerator:
             # TODO: do array elements need to be aligned?
             if value is None:
                 # Implicit value (a hole between other valid values.)
-                pad_inc = self.sizeof(typ.element_type)
-                ptr = self.builder.emit_add(ptr, pad_inc, ir.ptr)
-                inc2 = pad_inc
+                ptr, inc2 = self.gen_local_zero(ptr, typ.element_type)
             else:
                 ptr, inc2 = self.gen_local_init(ptr, typ.element_type, value)
             inc += inc2
+
+        # Elements without initializer are set to zero:
+        size = self.sizeof(typ)
+        while inc < size:
+            ptr, inc2 = self.gen_local_zero(ptr, typ.element_type)
+            inc += inc2
         return ptr, inc
+
+    def gen_local_zero(self, ptr, typ):
+        """Fill a part of a local variable with zeros.
+
+        Members of an initialized aggregate which have no initializer
+        themselves are initialized to zero.
+        """
+        size = self.sizeof(typ)
+        alignment = self.context.alignment(typ)
+        if alignment % 4 == 0:
+            chunk, ir_typ = 4, ir.u32
+        elif alignment % 2 == 0:
+            chunk, ir_typ = 2, ir.u16
+        else:
+            chunk, ir_typ = 1, ir.u8
+        offset = 0
+        while offset < size:
+            if size - offset < chunk:
+                chunk, ir_typ = 1, ir.u8
+            zero = self.emit(ir.Const(0, "zero", ir_typ))
+            self.emit(ir.Store(zero, ptr))
+            ptr = self.builder.emit_add(ptr, chunk, ir.ptr)
+            offset += chunk
+        return ptr, size
 
     def gen_local_init_struct(self, ptr, typ, expr):
         """Fill structure with initializer (at runtime)"""
@@ -932,9 +960,7 @@ class CCodeGenerator:
                         value = expr.values[field]
                         ptr, inc2 = self.gen_local_init(ptr, field.typ, value)
                     else:
-                        pad_inc = self.sizeof(field.typ)
-                        ptr = self.builder.emit_add(ptr, pad_inc, ir.ptr)
-                        inc2 = pad_inc
+                        ptr, inc2 = self.gen_local_zero(ptr, field.typ)
                 offset += inc2
 
             # Fill last padding space:
